@@ -1,1 +1,185 @@
--- property theorems for C16 (stub)
+/-
+C16 — stream and subprocess I/O delivers every byte once, in order.  Property theorems only.
+Model: JanetModel/Stream/Model.lean (ev_callback_read / ev_callback_write / listener slots of src/core/ev.c) against a
+nondeterministic kernel.  Every theorem quantifies over ALL event sequences and ALL kernel answer sequences.
+-/
+import JanetModel.Stream.Lemmas
+import JanetModel.Stream.Slots
+
+namespace JanetModel.Props.C16
+open JanetModel.Stream
+
+/-- ★ Whatever the kernel answers (partial writes, EAGAIN, EINTR, errors) and whatever events arrive: the bytes handed
+    to the kernel are exactly the first `start` source bytes, in order, each once; every accepted call asked for the whole
+    remainder starting at its offset; and when the operation reports success all source bytes were handed over. -/
+theorem write_delivers_all_in_order {α : Type} (src : List α) (evs : List WEv) :
+    let t := runWrite src.length false 0 evs
+    delivered src t.calls = src.take t.start ∧ t.start ≤ src.length ∧
+      (∀ c ∈ t.calls, c.got > 0 → c.len = src.length - c.off) ∧
+      (t.res = .done → delivered src t.calls = src) := by
+  have g := runWrite_good src src.length false evs 0 (Nat.zero_le _)
+  dsimp only
+  generalize runWrite src.length false 0 evs = t at g ⊢
+  have hst : t.start = 0 + sumGot t.calls := g.adv (Or.inl rfl)
+  have hb := g.bound
+  refine ⟨?_, by omega, g.offs, ?_⟩
+  · have := g.deliv; simp only [List.drop_zero] at this; rw [this, hst, Nat.zero_add]
+  · intro hd
+    have hge := g.fin hd
+    have := g.deliv; simp only [List.drop_zero] at this
+    rw [this]
+    have : sumGot t.calls = src.length := by omega
+    rw [this, List.take_length]
+
+/-- datagram mode (send-to): the kernel never receives anything but a prefix of the message either -/
+theorem sendto_delivers_prefix {α : Type} (src : List α) (evs : List WEv) :
+    let t := runWrite src.length true 0 evs
+    delivered src t.calls = src.take (sumGot t.calls) ∧ sumGot t.calls ≤ src.length := by
+  have g := runWrite_good src src.length true evs 0 (Nat.zero_le _)
+  dsimp only
+  generalize runWrite src.length true 0 evs = t at g ⊢
+  refine ⟨?_, by have := g.bound; omega⟩
+  have := g.deliv; simp only [List.drop_zero] at this; exact this
+
+/-- ★ A read of `n` bytes never appends more than `n` bytes, and what it appends is exactly the next bytes of the
+    arrival sequence, in order, none lost, none twice (`got ++ remaining = arrival`). -/
+theorem read_at_most_n {α : Type} (chunk recvfrom : Bool) (limC base n : Nat) (inc : List α) (evs : List REv) :
+    let t := runRead chunk recvfrom limC base (rInit n inc) evs
+    t.st.got.length ≤ n ∧ t.st.got ++ t.st.inc = inc ∧ t.st.got.length = t.st.read := by
+  have h0 : RInv n inc (rInit n inc) := ⟨rfl, by simp [rInit], by simp [rInit]⟩
+  have h := runRead_inv chunk recvfrom limC base n inc evs _ h0
+  dsimp only
+  generalize runRead chunk recvfrom limC base (rInit n inc) evs = t at h ⊢
+  exact ⟨by have := h.len; have := h.sum; omega, h.order, h.len⟩
+
+/-- ★ A chunked read that returns a buffer returns exactly `n` bytes, unless the stream ended (a call returned 0 bytes
+    after earlier data) or the descriptor reported an error condition. -/
+theorem chunk_exact_unless_eof {α : Type} (recvfrom : Bool) (limC base n : Nat) (inc : List α) (evs : List REv) (r : RReason) :
+    let t := runRead true recvfrom limC base (rInit n inc) evs
+    t.res = .buf r → (r = .full ∧ t.st.got.length = n) ∨ r = .eof ∨ r = .errEvent := by
+  have h0 : RInv n inc (rInit n inc) := ⟨rfl, by simp [rInit], by simp [rInit]⟩
+  have h := runRead_inv true recvfrom limC base n inc evs _ h0
+  have hp := runRead_post true recvfrom limC base evs (rInit n inc)
+  dsimp only
+  generalize runRead true recvfrom limC base (rInit n inc) evs = t at h hp ⊢
+  intro hr
+  rw [hr] at hp
+  cases r with
+  | full =>
+    left
+    refine ⟨rfl, ?_⟩
+    have h1 := h.len; have h2 := h.sum
+    have h3 : t.st.left = 0 := hp
+    omega
+  | eof => right; left; rfl
+  | nonchunk => simp [RPost] at hp
+  | errEvent => right; right; rfl
+
+/-- ★ At end of stream (kernel queue empty) with nothing read so far, a stream read answers nil — whatever count the
+    kernel's answer carries — and an EINTR before it changes nothing. -/
+theorem read_returns_nil_at_eof {α : Type} (chunk : Bool) (limC base : Nat) (st : RSt α) (m : Nat) (as : List Ans)
+    (h0 : st.read = 0) (he : st.inc = []) :
+    (readLoop chunk false limC base st (.bytes m :: as)).res = .nil false ∧
+    (readLoop chunk false limC base st (.eintr :: .bytes m :: as)).res = .nil false := by
+  have hk : min (min m (readLimit chunk limC st.left)) st.inc.length = 0 := by simp [he]
+  have hr : afterReadRes chunk false st 0 = some (.nil false) := by simp [afterReadRes, h0]
+  constructor
+  · simp only [readLoop, hk, hr]
+  · simp only [readLoop, hk, hr]
+
+/-- nil (not caused by close) means that this operation took nothing out of the kernel: no byte is dropped by an
+    end-of-stream answer. -/
+theorem nil_consumes_nothing {α : Type} (chunk recvfrom : Bool) (limC base n : Nat) (inc : List α) (evs : List REv) :
+    let t := runRead chunk recvfrom limC base (rInit n inc) evs
+    t.res = .nil false → t.st.got = [] ∧ t.st.inc = inc := by
+  have h0 : RInv n inc (rInit n inc) := ⟨rfl, by simp [rInit], by simp [rInit]⟩
+  have h := runRead_inv chunk recvfrom limC base n inc evs _ h0
+  have hp := runRead_post chunk recvfrom limC base evs (rInit n inc)
+  dsimp only
+  generalize runRead chunk recvfrom limC base (rInit n inc) evs = t at h hp ⊢
+  intro hr
+  rw [hr] at hp
+  have h3 : t.st.read = 0 := hp
+  have hl := h.len
+  have hg : t.st.got = [] := List.eq_nil_of_length_eq_zero (by omega)
+  exact ⟨hg, by have := h.order; rw [hg] at this; simpa using this⟩
+
+/-- ★ Closing a stream wakes its pending reader (nil) and writer ("stream closed"), in whatever state they are … -/
+theorem close_wakes_pending_op {α : Type} (chunk recvfrom : Bool) (limC base : Nat) (st : RSt α) (len : Nat) (dgram : Bool) (start : Nat) :
+    (readStep chunk recvfrom limC base st .close).res = .nil true ∧
+    (writeStep len dgram start .close).res = .failed .closed := ⟨rfl, rfl⟩
+
+/-- ★ … and, when every waiting fiber is registered in its slot, after `janet_stream_close` no fiber is left waiting. -/
+theorem close_wakes_pending (gR gW : Bool) (w : World) (h : w.Inv) (g : Nat) :
+    (World.step gR gW w .close).pend g = none := World.close_pend_none_gen gR gW w h g
+
+/-- ☆ FULL STRENGTH, as an obligation over the source: if `janet_async_start_fiber` guards both slots, then for every
+    schedule of operations by any number of fibers, readiness events and closes: every fiber that waits on the stream
+    is the one registered for its direction (so the next readiness / error / close event reaches it — none is orphaned),
+    and a close leaves nobody waiting.  The hypotheses are discharged for the CURRENT source in
+    JanetModel/Stream/Current.lean from the regenerated Gen/Stream.lean. -/
+theorem every_op_completes_or_errors
+    (hR : Gen.Stream.guardsReadSlot = true) (hW : Gen.Stream.guardsWriteSlot = true) (sched : List Act) :
+    (∀ f d, (World.runCurrent World.init sched).pend f = some d → (World.runCurrent World.init sched).slot d = some f) ∧
+    (∀ g, (World.runCurrent World.init (sched ++ [.close])).pend g = none) := by
+  unfold World.runCurrent
+  rw [hR, hW]
+  have hi := World.run_inv sched World.init World.init_inv
+  refine ⟨hi, ?_⟩
+  intro g
+  rw [World.run_append]
+  exact World.close_pend_none _ hi g
+
+/-- ☆ what holds on a tree WITHOUT the guards: the same conclusion for programs that keep one reader and one writer
+    per stream at a time (every `start` finds the slot free or stale). -/
+theorem every_op_completes_or_errors_partial (gR gW : Bool) (sched : List Act) :
+    ∀ w : World, w.Inv →
+      (∀ pre a post, sched = pre ++ a :: post → (World.run gR gW w pre).Disciplined a) →
+      (World.run gR gW w sched).Inv := by
+  induction sched with
+  | nil => intro w h _; exact h
+  | cons a as ih =>
+    intro w h hd
+    have h1 : (World.step gR gW w a).Inv := World.step_inv_disciplined gR gW w a h (hd [] a as rfl)
+    apply ih _ h1
+    intro pre b post e
+    have := hd (a :: pre) b post (by rw [e]; rfl)
+    exact this
+
+/-- The missing part of `_partial`, on a concrete witness: without the guard a second reader takes over
+    `stream->read_fiber`; the first reader is orphaned and NO continuation of the schedule — data arriving, end of
+    stream, errors, close, other operations — ever resumes it. -/
+theorem second_reader_orphans_first (rest : List Act) :
+    ((World.run false false World.init
+        ([.start 0 .rd false, .start 1 .rd false] ++ rest)).pend 0).isSome = true := by
+  rw [World.run_append]
+  have h : (World.run false false World.init [.start 0 .rd false, .start 1 .rd false]).Orphan 0 := by
+    refine ⟨by decide, by decide, by decide⟩
+  exact (World.run_orphan false false rest 0 _ h).1
+
+theorem second_writer_orphans_first (rest : List Act) :
+    ((World.run false false World.init
+        ([.start 0 .wr false, .start 1 .wr false] ++ rest)).pend 0).isSome = true := by
+  rw [World.run_append]
+  have h : (World.run false false World.init [.start 0 .wr false, .start 1 .wr false]).Orphan 0 := by
+    refine ⟨by decide, by decide, by decide⟩
+  exact (World.run_orphan false false rest 0 _ h).1
+
+/-- with the guard the same schedule makes the second reader raise and the first one completes -/
+example : (World.run true true World.init [.start 0 .rd false, .start 1 .rd false, .ready .rd true]).outcome 1 = some .raised ∧
+          (World.run true true World.init [.start 0 .rd false, .start 1 .rd false, .ready .rd true]).outcome 0 = some .completed := by
+  decide
+
+/-! non-vacuity: concrete runs -/
+
+-- a 10-byte write against a kernel that takes 3, says EAGAIN, is interrupted, takes 4, then the rest
+example : (runWrite 10 false 0 [.ready [.bytes 3], .ready [.eagain], .ready [.eintr, .bytes 4], .ready [.bytes 100]]).calls
+    = [⟨0, 10, 3⟩, ⟨3, 7, 0⟩, ⟨3, 7, 0⟩, ⟨3, 7, 4⟩, ⟨7, 3, 3⟩] := by decide
+example : (runWrite 10 false 0 [.ready [.bytes 3], .ready [.eagain], .ready [.eintr, .bytes 4], .ready [.bytes 100]]).res = .done := by decide
+-- a chunked read of 6 bytes: 2 bytes, would-block, 3 bytes, end of stream -> short chunk with reason eof
+example : (runRead true false 4096 0 (rInit 6 [1, 2, 3, 4, 5]) [.ready [.bytes 2, .eagain], .ready [.bytes 3, .bytes 0]]).res = .buf .eof := by decide
+example : (runRead true false 4096 0 (rInit 6 [1, 2, 3, 4, 5]) [.ready [.bytes 2, .eagain], .ready [.bytes 3, .bytes 0]]).st.got = [1, 2, 3, 4, 5] := by decide
+example : (runRead true false 4096 0 (rInit 4 [1, 2, 3, 4, 5]) [.ready [.bytes 2, .eagain], .ready [.bytes 3]]).res = .buf .full := by decide
+example : (runRead false false 4096 0 (rInit 4 ([] : List Nat)) [.ready [.eagain], .ready [.bytes 0]]).res = .nil false := by decide
+
+end JanetModel.Props.C16
